@@ -880,7 +880,7 @@ JNP = {
     'zeros_like': lambda x, **k: P_zeros(asarr(x).shape), 'ones_like': lambda x, **k: P_ones(asarr(x).shape),
     'multiply': lambda a, b: asarr(a) * asarr(b), 'add': lambda a, b: asarr(a) + asarr(b), 'divide': lambda a, b: asarr(a) / asarr(b),
     'square': lambda a: asarr(a) * asarr(a), 'expand_dims': lambda a, ax: np.expand_dims(asarr(a), ax),
-    'sin': unary('sin'), 'cos': unary('cos'), 'tanh': unary('tanh'), 'arctanh': unary('arctanh'), 'log': unary('log'), 'exp': unary('exp'),
+    'sin': unary('sin'), 'cos': unary('cos'), 'tanh': unary('tanh'), 'arctanh': unary('arctanh'), 'log': unary('log'), 'exp': unary('exp'), 'log1p': lambda x, *a, **k: elemwise(lambda v: unary('log')(1 + Rat.lift(v)), x), 'expm1': lambda x, *a, **k: elemwise(lambda v: unary('exp')(Rat.lift(v)) - 1, x),
     'sqrt': unary('sqrt'), 'abs': unary('abs'), 'sign': unary('sign'), 'arccos': unary('arccos'), 'arcsin': unary('arcsin'), 'arctan': unary('arctan'), 'tan': unary('tan'), 'floor': unary('floor'), 'isnan': lambda x: elemwise(lambda v: False if Rat.lift(v).is_const() else uf('isnan', v), x), 'isinf': unary('isinf'), 'isfinite': lambda x: elemwise(lambda v: True if Rat.lift(v).is_const() else uf('isfinite', v), x), 'arctan2': lambda a, b: elemwise(_arctan2, a, b), 'logical_and': lambda a, b: asarr(a) * asarr(b), 'logical_not': lambda a: 1 - asarr(a), 'logical_or': lambda a, b: asarr(a) + asarr(b) - asarr(a) * asarr(b), 'repeat': lambda a, n, axis=None: np.repeat(asarr(a), n, axis=axis), 'transpose': lambda a, *ax: np.transpose(asarr(a), *ax), 'outer': lambda a, b: np.outer(asarr(a), asarr(b)), 'trace': lambda a: np.trace(asarr(a)), 'full': lambda shape, v, **k: np.full(shape if isinstance(shape, tuple) else (shape,), None, dtype=object) * 0 + Rat.lift(v) if False else _full(shape, v), 'any': lambda x, axis=None, **k: _any(x, axis), 'all': lambda x, axis=None, **k: _all(x, axis),
     'maximum': lambda a, b: elemwise(lambda x, y: _minmax('max', x, y), a, b),
     'minimum': lambda a, b: elemwise(lambda x, y: _minmax('min', x, y), a, b),
@@ -2104,3 +2104,79 @@ def nested_fn_auto(interp, mod, outer, name, outer_args, overrides=None):
                 f.env['v'][k] = v
         return f.env['v'][name], f.env['v']
     raise AnalysisError('anchor nested function %s.%s.%s not found' % (mod, outer, name))
+
+
+
+def subst_atoms(v, f):
+    """Exact mode: replace every atom a for which f(a) is not None by the value f(a), inside polynomials and
+    (recursively) inside the arguments of the remaining uninterpreted atoms."""
+    memo = {}
+
+    def atom(a):
+        if a in memo:
+            return memo[a]
+        r = f(a)
+        if r is not None:
+            r = rat(r)          # the replacement may itself contain atoms to replace (nested markers)
+        if r is None and isinstance(a, Atom) and a in ATOM_ARGS:
+            name, args = ATOM_ARGS[a]
+            new = tuple(rat(x) if isinstance(x, Rat) else (elemwise(rat, x) if isinstance(x, np.ndarray) else x) for x in args)
+            changed = any((isinstance(x, Rat) and not x.same(y)) or (isinstance(x, np.ndarray) and not same(x, y))
+                          for x, y in zip(args, new))
+            if changed:
+                r = uf(name, *new)
+        memo[a] = r
+        return r
+
+    def poly(p):
+        out = Rat.lift(0)
+        for mono, c in p.t.items():
+            term = Rat(Poly.const(c))
+            for n, e in mono:
+                r = atom(n) if isinstance(n, Atom) else None
+                base = r if r is not None else Rat(Poly.sym(n))
+                term = term * base ** e
+            out = out + term
+        return out
+
+    def rat(r):
+        r = Rat.lift(r)
+        if r.fv is not None:
+            raise OutOfFragment('subst_atoms needs exact mode')
+        n = poly(r.n)
+        return n if r.d.is_const() and r.d.constval() == 1 else n / poly(r.d)
+
+    if isinstance(v, np.ndarray):
+        return elemwise(rat, v)
+    return rat(v)
+
+
+def free_symbols(v, opaque_kinds=()):
+    """Names of the plain symbols (and atoms, transitively through their arguments) a value depends on, not
+    descending into atoms whose kind is in opaque_kinds."""
+    out = set()
+
+    def atom(a):
+        if isinstance(a, Atom):
+            if a.kind in opaque_kinds:
+                return
+            if a in ATOM_ARGS:
+                for x in ATOM_ARGS[a][1]:
+                    if isinstance(x, Rat):
+                        rat(x)
+                    elif isinstance(x, np.ndarray):
+                        for y in x.ravel():
+                            rat(y)
+                return
+        out.add(a)
+
+    def rat(r):
+        r = Rat.lift(r)
+        for p in (r.n, r.d):
+            for mono in p.t:
+                for n, _ in mono:
+                    atom(n)
+
+    for x in asarr(v).ravel():
+        rat(x)
+    return out
